@@ -22,6 +22,9 @@ static int st_read(const ascon_storage_t *st, size_t offset, unsigned char *data
 }
 static int st_write(const ascon_storage_t *st, size_t offset, const unsigned char *data, size_t size, int erase) {
     g_sc.ncalls++;
+    // a storage driver reads all `size` bytes it is handed: so does this one (a size beyond the caller's buffer is then seen by the
+    // sanitised builds of C12 as an over-read); sizes the library never legitimately passes are capped to keep the run alive
+    if (data) { volatile unsigned char acc = 0; for (size_t i = 0; i < size && i < 65536; ++i) acc ^= data[i]; (void)acc; }
     g_sc.log += " W:" + std::to_string(offset) + ":" + std::to_string(size) + ":" + (erase ? "1" : "0") + ":" + (data ? hex(data, size < 32 ? size : 32) + (size > 32 ? "+MORE" : "") : std::string("NULLDATA"))
               + (st == g_sc.expect ? "" : ":BADPTR");
     return g_sc.wr;
